@@ -607,3 +607,36 @@ func fnValueOf(v ssa.Value) *ssa.Function {
 	}
 	return nil
 }
+
+// inModule: f is a function of jig/lisp itself.
+func inModule(f *ssa.Function) bool {
+	return f != nil && strings.HasPrefix(fnPkgPath(f), modPath)
+}
+
+// include runs another property's check and adopts its obligations under this property, with the rule ids
+// moved from oldPrefix to newPrefix: the clause of this property named in why rests on those rules.
+func (r *Report) include(newPrefix, oldPrefix, why string, check func(*World, *Report), keep func(rule string) bool) {
+	sub := newReport(r.Prop, r.Tier, r.W)
+	check(r.W, sub)
+	ren := func(id string) string { return newPrefix + strings.TrimPrefix(id, oldPrefix) }
+	for id, d := range sub.Rules {
+		if keep == nil || keep(id) {
+			r.Rules[ren(id)] = d + " (shared with " + id + ": " + why + ")"
+		}
+	}
+	for _, o := range sub.Obl {
+		if keep == nil || keep(o.Rule) {
+			o.Rule = ren(o.Rule)
+			r.Obl = append(r.Obl, o)
+		}
+	}
+	for _, f := range sub.Floors {
+		if keep == nil || keep(f.Rule) {
+			f.Rule = ren(f.Rule)
+			r.Floors = append(r.Floors, f)
+		}
+	}
+	for f := range sub.FuncsSeen {
+		r.FuncsSeen[f] = true
+	}
+}
